@@ -893,6 +893,21 @@ Definition comp_query (mode : ts_mode) (om : opt_mode) (members : list source) (
   bind (concat_res (map (fun s => source_query mode om s q allf) members)) (fun all_data =>
   match all_data with [] => Ok [] | _ => deduplicate [] all_data end).
 
+(* CompositeDataSource.all_versions: the composite's own filters (and those
+   handed down to it) go to every member as _composite_filters; the answers
+   are concatenated and deduplicated *)
+Definition source_all_versions (mode : ts_mode) (om : opt_mode) (s : source) (i : pv) (comp : list flt) : res (list pv) :=
+  match s with
+  | SMem data att => mem_all_versions mode data i att comp
+  | SFs t att => fs_all_versions mode om t i att comp
+  end.
+
+Definition comp_all_versions (mode : ts_mode) (om : opt_mode) (members : list source) (cattached : list flt) (i : pv)
+           (outer : list flt) : res (list pv) :=
+  let allf := fset_add (fset_add [] cattached) outer in
+  bind (concat_res (map (fun s => source_all_versions mode om s i allf) members)) (fun all_data =>
+  match all_data with [] => Ok [] | _ => deduplicate [] all_data end).
+
 (* ------------------------------------------------------------------ *)
 (* Short constructors and renderers for the case files                 *)
 
@@ -960,8 +975,12 @@ Definition show3 (mode : ts_mode) (om : opt_mode) (pop : list pv) (m : list (pv 
   (append (show_result_ix pop (q_fs mode om t wrap q att comp)) (append " ## "
   (show_result_ix pop (comp_query mode om [SMem ma att; SFs tb att] comp q []))))).
 
-(* all_versions(id) with attached filters on the memory source and on the filesystem source.  One result line. *)
+(* all_versions(id): memory source and filesystem source with `att` attached; the same two wrapped in a
+   CompositeDataSource that carries `comp`; the two-member composite.  One result line. *)
 Definition show_av (mode : ts_mode) (om : opt_mode) (pop : list pv) (m : list (pv * mem_entry)) (t : fs)
-           (i : pv) (att : list flt) : string :=
+           (ma : list (pv * mem_entry)) (tb : fs) (i : pv) (att comp : list flt) : string :=
   append (show_result_ix pop (mem_all_versions mode m i att [])) (append " ## "
-  (show_result_ix pop (fs_all_versions mode om t i att []))).
+  (append (show_result_ix pop (fs_all_versions mode om t i att [])) (append " ## "
+  (append (show_result_ix pop (comp_all_versions mode om [SMem m att] comp i [])) (append " ## "
+  (append (show_result_ix pop (comp_all_versions mode om [SFs t att] comp i [])) (append " ## "
+  (show_result_ix pop (comp_all_versions mode om [SMem ma att; SFs tb att] comp i []))))))))).
